@@ -18,6 +18,9 @@ const Desc DESCS[] = {
 #define X(def, val, str) {val, str},
 #define XE X
     LIST_OF_ERRORS
+#if USE_USER_ERROR_LIST
+    LIST_OF_USER_ERRORS
+#endif
 #undef X
 #undef XE
 };
@@ -102,7 +105,7 @@ struct QRun {
     }
     QRun(World &w_, Verdict &v_, Mode m) : w(w_), v(v_), mode(m), cap(w_.cfg.queue) {}
 
-    void model_push(int code, bool has_text, const std::string &text, bool alloc_failed, bool contains = false) {
+    void model_push(int code, bool has_text, const std::string &text, bool alloc_failed, bool contains = false, bool nested = false) {
         Entry e;
         e.code = code;
         e.has_ptr = false;
@@ -117,7 +120,8 @@ struct QRun {
                 e.may_text = true;
                 e.text = text;
                 // (for parser-generated texts only the header is known, not the exact stored extent: never mandatory)
-                if (was_empty && !contains && text.size() + 1 <= (size_t) w.cfg.heap) e.must_text = true;
+                // (a push from inside the write callback may find the text of the entry being reported still in the heap)
+                if (was_empty && !contains && !nested && text.size() + 1 <= (size_t) w.cfg.heap) e.must_text = true;
             }
 #else
             if (!alloc_failed) {
@@ -214,7 +218,7 @@ struct QRun {
             std::string pre = desc + ";";
             if (content.compare(0, pre.size(), pre) == 0 && content.find(m.text, pre.size()) != std::string::npos && content.size() <= 255) {
                 int count_after2 = SCPI_ErrorCount(w.ctx);
-                int want2 = count_before > 0 ? count_before - 1 : 0;
+                int want2 = (int) q.size();
                 if (count_after2 != want2) v.fail("resp-not-consumed", fmt("before=%d after=%d", count_before, count_after2), "queue count did not drop over SYST:ERR?");
                 return;
             }
@@ -258,7 +262,8 @@ struct QRun {
             }
         }
         int count_after = SCPI_ErrorCount(w.ctx);
-        int want = count_before > 0 ? count_before - 1 : 0;
+        int want = (int) q.size();   // the reference FIFO has consumed the entry already (and taken a push made from inside the write callback)
+        (void) count_before;
         if (count_after != want) v.fail("resp-not-consumed", fmt("before=%d after=%d", count_before, count_after), fmt("queue count %d -> %d over SYST:ERR?", count_before, count_after));
     }
 };
@@ -288,6 +293,19 @@ void execute_queue(const Plan &plan, Verdict &v, Mode mode) {
         size_t handlers_seen = 0;
         // every non-zero error callback is one push by the library (parser) unless announced by us
         bool fw_push_active = false;
+        // firmware that raises an error from inside its write callback (transmit path stalled, ...): one-shot, armed by a
+        // `wrpush` op, fires at the k-th write call made by a command handler other than the count query
+        struct {
+            bool on = false;
+            long countdown = 0;
+            int code = 0;
+            size_t lenarg = 0;
+            bool has_s = false;
+            std::string text;
+        } armed;
+        bool early_pop_valid = false;
+        Entry early_pop;
+        int early_before = 0;
         w.err_observer = [&](World &ww, int code) {
             if (code == 0 || fw_push_active) return;
             if (code == -350 && run.expect_echo) {
@@ -325,8 +343,9 @@ void execute_queue(const Plan &plan, Verdict &v, Mode mode) {
                 std::string uout = u->out;
                 if (!uout.empty() && uout[0] == ';') uout.erase(0, 1);
                 if (u->tag == tag_next) {
-                    int before = (int) run.q.size();
-                    Entry m = run.model_pop();
+                    int before = early_pop_valid ? early_before : (int) run.q.size();
+                    Entry m = early_pop_valid ? early_pop : run.model_pop();
+                    early_pop_valid = false;
                     run.check_response(uout, m, before);
                     COUNT("error_queries");
                 } else if (u->tag == tag_count) {
@@ -344,6 +363,33 @@ void execute_queue(const Plan &plan, Verdict &v, Mode mode) {
             }
         };
         (void) count_before_handler;
+        w.write_hook = [&](World &ww) {
+            if (!armed.on || v.violated || !ww.in_handler) return;
+            UnitRec *u = ww.unit();
+            if (!u || u->tag == tag_count) return;
+            if (armed.countdown-- > 0) return;
+            armed.on = false;
+            if (u->tag == tag_next && !early_pop_valid) {
+                // the library has taken the entry out of the queue before it started writing the response
+                early_before = (int) run.q.size();
+                early_pop = run.model_pop();
+                early_pop_valid = true;
+                COUNT("probe_push_while_error_response_is_sent");
+            }
+            std::string text = armed.text;
+            size_t nul = text.find('\0');
+            if (nul != std::string::npos) text.resize(nul);
+            std::string stored;
+            if (armed.has_s) stored = text.substr(0, armed.lenarg ? std::min(armed.lenarg, text.size()) : std::min<size_t>(text.size(), 255));
+            fw_push_active = true;
+            ww.fw_push(armed.code, armed.has_s ? text.c_str() : nullptr, armed.lenarg);
+            fw_push_active = false;
+            bool failed = g_alloc.last_failed;
+            g_alloc.last_failed = false;
+            run.model_push(armed.code, armed.has_s, stored, failed, false, true);
+            run.expect_echo = false;
+            COUNT("fault_push_inside_write_callback");
+        };
 
         std::vector<long> cuts;
         size_t cut_i = 0;
@@ -429,6 +475,13 @@ void execute_queue(const Plan &plan, Verdict &v, Mode mode) {
             } else if (op.kind == "count") {
                 w.fw_count();
                 run.check_count("count");
+            } else if (op.kind == "wrpush") {
+                armed.on = true;
+                armed.countdown = clampl(op.arg(0), 0, 12);
+                armed.code = (int) (int16_t) op.arg(1);
+                armed.lenarg = (size_t) clampl(op.arg(2), 0, 1000);
+                armed.has_s = op.has_s;
+                armed.text = op.s;
             } else if (op.kind == "allocfail") {
                 // fail the k-th text allocation from now (lands in a parser push when followed by a message)
                 g_alloc.fail_countdown = clampl(op.arg(0), 0, 5);
@@ -474,6 +527,7 @@ void execute_queue(const Plan &plan, Verdict &v, Mode mode) {
         }
         w.observer = nullptr;
         w.err_observer = nullptr;
+        w.write_hook = nullptr;
         g_q = nullptr;
         if (g_collect) g_sets.add("interleaving", ilv ^ (uint64_t) run.cap);
         v.trace_hash = w.hash();
@@ -600,6 +654,7 @@ void generate_queue(Rng &r, const GenOpts &g, Plan &p, Mode mode) {
                 long lenarg = r.chance(1, 2) ? 0 : (r.chance(1, 2) ? (long) t.size() : r.range(1, 420));
                 p.ops.push_back(Op("push", {code, lenarg, 0}, t));
             } else if (kind <= 5) {
+                if (r.chance(1, 8)) p.ops.push_back(Op("wrpush", {(long) r.below(7), (long) gen_code(r), 0}, gen_text(r, uniq++, r.range(0, 60), true)));
                 p.ops.push_back(Op("msg", {}, r.chance(1, 4) ? "SYST:ERR?;:SYST:ERR?\n" : "SYST:ERR?\r\n"));
             } else if (kind == 6) {
                 p.ops.push_back(Op("pop"));
@@ -646,7 +701,15 @@ void generate_queue(Rng &r, const GenOpts &g, Plan &p, Mode mode) {
                 }
                 p.ops.push_back(Op("msg", {}, gen_queue_msg(r, uniq)));
                 break;
-            default: p.ops.push_back(Op("msg", {}, "SYST:ERR?\n")); break;
+            default:
+                if (r.chance(1, 5)) {
+                    if (r.chance(1, 4))
+                        p.ops.push_back(Op("wrpush", {(long) r.below(7), (long) gen_code(r), 0}));
+                    else
+                        p.ops.push_back(Op("wrpush", {(long) r.below(7), (long) gen_code(r), 0}, gen_text(r, uniq++, textmax, quotes)));
+                }
+                p.ops.push_back(Op("msg", {}, "SYST:ERR?\n"));
+                break;
         }
     }
 }
@@ -677,14 +740,15 @@ const Property C20 = {
     {"heap"},
     gen_c20,
     exec_c20,
-    {"probe_ring_wrapped", "probe_pop_to_empty", "fault_queue_overflow", "probe_overflow_newcomer_has_text"},
+    {"probe_ring_wrapped", "probe_pop_to_empty", "fault_queue_overflow", "probe_overflow_newcomer_has_text", "fault_push_inside_write_callback",
+     "probe_push_while_error_response_is_sent"},
     "heap build; histories as for C10 with heap sizes 2..64 (and 600), texts of length 0..heap+3; reference queue 'exactly the pushed text or nothing', "
     "text mandatory when the queue was empty and the text fits; exact-size heap under ASan. distinct_nontrivial = distinct canonical trace hashes.",
 };
 const Property C18 = {
     "C18",
     "The error query always yields one well-formed, bounded error response",
-    {"malloc", "heap"},
+    {"malloc", "heap", "user"},
     gen_c18,
     exec_c18,
     {"probe_response_cut_at_limit", "error_queries"},
